@@ -8,7 +8,7 @@ from spec import step_model as M
 PROPERTY = "C07"
 BOUNDS = {
     "quick": "inductive step: two known nodes a,b (ids sym [10,99], distinct), sleeping flags symbolic, parked commands for keys (node,child,type) = (a,1,2),(a,1,3),(a,2,2),(b,1,2) each present or absent (symbolic; 64 pre-states incl. parked-but-not-sleeping); one event of 20 kinds: send set to a|b x (child,type) in {(1,2),(1,3),(2,2)} x buffering flag, receive from a|b: heartbeat response (wake in 2.0/2.1), pre-sleep notification (wake in 2.2), battery report, set; after the step writes (flush order free), outcome, registry and the complete buffer are compared with the model; 5 versions (1.x: sleeping flag set directly, no wake signal exists). one event may also be a version reply from the gateway (buffer must be untouched). Plus 2-event histories from an empty buffer (2.0, 2.2), and 'switch' histories: commands parked while the version is unknown, then the version report (protocol switch 1.4 -> 2.x), then a wake",
-    "thorough": "as quick plus 3-event histories on 2.0, 2.1, 2.2 and 2-event histories on 1.4/1.5",
+    "thorough": "as quick plus 3-event histories on 2.0 and 2.2 and 2-event histories on 1.4/1.5/2.1",
 }
 REALISED = []
 STUBS = ["RecTransport", "symbolic maps", "__repr__ -> constant"]
@@ -29,7 +29,7 @@ def partitions(tier):
         if v in ("2.0", "2.1", "2.2"):
             parts.append({"name": "switch-%s" % v, "fn": "sym_switch", "version": v, "budget": 600 if q else 2000, "cost": 4})
         if (q and v in ("2.0", "2.2")) or not q:
-            steps = 2 if (q or v in ("1.4", "1.5")) else 3
+            steps = 2 if (q or v in ("1.4", "1.5", "2.1")) else 3
             for first in range(6):
                 parts.append({"name": "hist-%s-f%d" % (v, first), "fn": "sym_hist", "version": v, "steps": steps, "first": first,
                               "budget": 600 if q else 3600, "cost": 6 if steps == 2 else 20})
